@@ -192,7 +192,11 @@ func gen(r *lib.Rand, tier, stream string, i int) History {
 		if r.Chance(1, 10) {
 			dep = r.Range(1, c.MinDep)
 		}
-		return Step{K: "bind", Svc: svc, Prov: prov, DepA: dep, Pr: pr, Qos: r.Range(1, c.MaxTo), Opt: 1}
+		qos := r.Range(1, 2)
+		if r.Chance(1, 4) {
+			qos = r.Range(1, c.MaxTo)
+		}
+		return Step{K: "bind", Svc: svc, Prov: prov, DepA: dep, Pr: pr, Qos: qos, Opt: 1}
 	}
 	for p := 2; p <= 4; p++ {
 		if r.Chance(5, 6) {
@@ -200,7 +204,10 @@ func gen(r *lib.Rand, tier, stream string, i int) History {
 		}
 	}
 	callStep := func() Step {
-		s := Step{K: "call", Svc: r.Weighted(8, 2, 1), Who: 5 + r.Intn(2), CapA: []int64{100000, 100000, 500, 50, 1}[r.Intn(5)], Timeout: r.Range(1, c.MaxTo)}
+		s := Step{K: "call", Svc: r.Weighted(16, 2, 1), Who: 5 + r.Weighted(3, 1), CapA: []int64{100000, 100000, 100000, 100000, 500, 50, 1}[r.Intn(7)], Timeout: r.Range(2, c.MaxTo)}
+		if r.Chance(1, 6) {
+			s.Timeout = 1
+		}
 		np := 1 + r.Intn(3)
 		perm := []int{2, 3, 4}
 		for k := 0; k < 3; k++ {
@@ -237,7 +244,7 @@ func gen(r *lib.Rand, tier, stream string, i int) History {
 			s.Mode = r.Weighted(20, 2, 2, 1)
 			return s
 		}
-		switch r.Weighted(14, 10, 24, 5, 9, 4, 3, 3, 2, 1, 2, 2, 4, 3, 3) {
+		switch r.Weighted(14, 8, 26, 5, 9, 4, 2, 2, 2, 1, 2, 2, 4, 3, 3) {
 		case 0:
 			h.Steps = append(h.Steps, callStep())
 			if r.Chance(1, 2) {
@@ -924,6 +931,9 @@ func exec(h History) lib.Case {
 					inact = append(inact, v)
 				}
 			}
+			if st.Mode == 0 && len(act) == 0 {
+				continue // nothing to answer: the step is dropped (deterministically, so replays agree)
+			}
 			switch {
 			case st.Mode == 3 || len(rvs) == 0:
 				rid = make([]byte, 58)
@@ -958,6 +968,9 @@ func exec(h History) lib.Case {
 			}
 			render = fmt.Sprintf("req %s by %d kind %d", coqReqID(rid), prov, st.Kind)
 		case "pause", "start", "kill", "updctx":
+			if st.Mode == 0 && len(cvs) == 0 {
+				continue
+			}
 			id, cons := pickCtx(st.Sel, st.Mode, false)
 			ids := strings.ToUpper(hex.EncodeToString(id))
 			switch st.K {
@@ -987,6 +1000,9 @@ func exec(h History) lib.Case {
 			}
 			render = fmt.Sprintf("ctx %s by %d", coqCtxID(id), cons)
 		case "modpause", "modstart", "modkill":
+			if st.Mode == 0 && len(cvs) == 0 {
+				continue
+			}
 			id, cons := pickCtx(st.Sel, st.Mode, true)
 			out = e.Try(func(ctx sdk.Context) error {
 				switch st.K {
